@@ -1065,3 +1065,102 @@ class DatumGen:
         for p in reversed(parts):
             s = "(pair %s %s)" % (p, s)
         return s
+
+
+# ------------------------------------------------------------------------------------------
+# C14 / C13: library graphs
+# ------------------------------------------------------------------------------------------
+NODE_KINDS = ["healthy", "missing", "faulting", "wrong-name", "broken", "not-utf8"]
+
+
+def library_text(name, imports, kind):
+    """source of library (name) importing the given libraries"""
+    imp = " ".join("(%s)" % i for i in imports)
+    imports_decl = "(import (scheme base)%s)" % ((" " + imp) if imp else "")
+    if kind == "healthy":
+        return "(define-library (%s) (export %s-v) %s (begin (define %s-v '%s)))" % (name, name, imports_decl, name, name)
+    if kind == "faulting":
+        return "(define-library (%s) (export %s-v) %s (begin (define %s-v (car '()))))" % (name, name, imports_decl, name)
+    if kind == "wrong-name":
+        return "(define-library (not-%s) (export %s-v) %s (begin (define %s-v 1)))" % (name, name, imports_decl, name)
+    if kind == "broken":
+        return "(define-library (%s) (export %s-v) %s (begin (define %s-v 1)" % (name, name, imports_decl, name)
+    raise ValueError(kind)
+
+
+def library_graphs(n, rng=None, sample=None):
+    """every digraph on n libraries l0..l(n-1) (self loops included) x every assignment of node kinds"""
+    import itertools
+    names = ["l%d" % k for k in range(n)]
+    pairs = [(a, b) for a in range(n) for b in range(n)]
+    out = []
+    for mask in range(1 << len(pairs)):
+        edges = [pairs[k] for k in range(len(pairs)) if mask >> k & 1]
+        for kinds in itertools.product(NODE_KINDS, repeat=n):
+            # edges out of nodes that have no readable source do not exist
+            ok = True
+            for a, b in edges:
+                if kinds[a] in ("missing", "not-utf8"):
+                    ok = False
+                    break
+            if ok:
+                out.append((names, edges, kinds))
+    if sample and rng and len(out) > sample:
+        out = rng.sample(out, sample)
+    return out
+
+
+# ------------------------------------------------------------------------------------------
+# C13: stateful libraries, importers with colliding names
+# ------------------------------------------------------------------------------------------
+def encapsulation_case(rng):
+    """returns (libraries: list of (name, text), program forms)"""
+    k = rng.randint(1, 3)
+    libs = []
+    names = ["lib%s" % c for c in "abc"[:k]]
+    internal = rng.choice(["n", "state", "x"])
+    helper = rng.choice(["helper", "h", "step"])
+    for i, name in enumerate(names):
+        deps = [d for d in names[:i] if rng.random() < 0.7]
+        ext_peek = rng.choice(["peek-%s" % name, "look-%s" % name])
+        exports = ["next-%s" % name, "(rename peek %s)" % ext_peek, "reset-%s!" % name]
+        body = ["(define %s %d)" % (internal, rng.randint(0, 5)),
+                "(define (%s d) (set! %s (+ %s d)) %s)" % (helper, internal, internal, internal),
+                "(define (next-%s) (%s 1))" % (name, helper),
+                "(define (peek) %s)" % internal,
+                "(define (reset-%s!) (set! %s 0))" % (name, internal)]
+        for d in deps:
+            exports.append("via-%s-%s" % (name, d))
+            body.append("(define (via-%s-%s) (next-%s) (next-%s))" % (name, d, d, d))
+        if rng.random() < 0.3:
+            body.insert(0, "(tick %d 0)" % (90 + i))           # how often the body runs
+            imports = "(import (scheme base) (verif tick)%s)" % "".join(" (%s)" % d for d in deps)
+        else:
+            imports = "(import (scheme base)%s)" % "".join(" (%s)" % d for d in deps)
+        text = "(define-library (%s) (export %s) %s (begin %s))" % (name, " ".join(exports), imports, " ".join(body))
+        libs.append((name, text, deps, ext_peek))
+    forms = []
+    order = list(names)
+    rng.shuffle(order)
+    imported = []
+    for name in order:
+        if rng.random() < 0.8:
+            forms.append(rng.choice(["(import (%s))" % name, "(import (%s) (%s))" % (name, name)]))
+            imported.append(name)
+    # the import phase ends with the first other form
+    pool = []
+    for name, text, deps, ext_peek in libs:
+        if name in imported:
+            pool += ["(next-%s)" % name, "(%s)" % ext_peek, "(reset-%s!)" % name]
+            pool += ["(via-%s-%s)" % (name, d) for d in deps]
+    pool += [internal, helper, "peek", "(define %s 100)" % internal, "(define (%s d) 'mine)" % helper,
+             "(set! %s 7)" % internal, "(define (peek) 'shadow)"]
+    for name in imported:
+        pool.append("(define next-%s (lambda () 'redefined))" % name)
+        pool.append("(define car (lambda (z) 'no-car))")
+    for _ in range(rng.randint(6, 14)):
+        forms.append(rng.choice(pool))
+    for name, text, deps, ext_peek in libs:
+        if name in imported:
+            forms.append("(%s)" % ext_peek)
+    return [(n, t) for n, t, _, _ in libs], forms
